@@ -24,6 +24,7 @@ impl Plane {
             && self.cpr_lat[1] != 0
             && self.cpr_lon[0] != 0
             && self.cpr_lon[1] != 0
+            && self.cpr_surface[0] == self.cpr_surface[1]
             && self.cpr_time[0]
                 .signed_duration_since(self.cpr_time[1])
                 .num_seconds()
